@@ -76,7 +76,10 @@ def generate(seed: int, tier: str) -> dict:
             continue
         d = rng.choice(sorted(live))
         if r < 0.6:
-            events.append({"ev": "resolve", "d": d, "probe": rng.choice(docs[d]["probes"])})
+            probe = rng.choice(docs[d]["probes"])
+            if docs[d].get("deref_probes") and rng.random() < 0.3:
+                probe = rng.choice(docs[d]["deref_probes"])
+            events.append({"ev": "resolve", "d": d, "probe": probe})
         elif r < 0.68:
             tag += 1
             events.append({"ev": "assign", "d": d, "probe": rng.choice(docs[d]["probes"]), "value": (base + d) * 1000 + 900 + tag})
@@ -270,7 +273,15 @@ def execute(case: dict):
                 try:
                     cur = src
                     for seg in probe:
-                        cur = cur[seg]
+                        if seg == "->":
+                            with StepBudget(STEP_BUDGET, prefix):
+                                cur = cur.value
+                            bump("probe:deref")
+                        else:
+                            cur = cur[seg]
+                except BudgetExceeded:
+                    viols.append(Violation("C10.unbounded", "traversal to %s did not finish" % " ".join(probe), step, {"doc": d, "what": "traverse"}))
+                    break
                 except Exception as e:  # noqa: BLE001
                     if isinstance(e, ResolutionError) or isinstance(e, KeyError):
                         bump("skip:traverse_failed:" + type(e).__name__)
